@@ -45,6 +45,10 @@ class RaiseSig(Exception):
         self.node = node
 
 
+class _GenStop(Exception):
+    """Unwinds a generator whose consuming for statement was left (break / return / exception in the loop body)."""
+
+
 class PathEnd(Exception):
     """The current path ends here (loop back edge of a while loop, infeasible assumption, ...)."""
 
@@ -591,8 +595,10 @@ class Interp:
     def eval_BoolOp(self, node):
         is_and = isinstance(node.op, ast.And)
         v = None
-        for e in node.values:
+        for i, e in enumerate(node.values):
             v = self.eval(e)
+            if i == len(node.values) - 1:
+                return v  # the value of the last operand is the result whatever its truth is: nothing is decided about it
             t = self.truth(v)
             if is_and and not t:
                 return v
@@ -862,6 +868,9 @@ class Interp:
                 if isinstance(x, Const):
                     return ("const", x.value is None)
                 return PFALSE
+        # --- two symbolic Booleans: equal iff both hold or neither does (a != b is their exclusive or)
+        if op in ("Eq", "Is") and isinstance(a, PredV) and isinstance(b, PredV):
+            return ("or", (("and", (a.p, b.p)), ("and", (pred_not(a.p), pred_not(b.p)))))
         # --- Boolean constants against symbolic Booleans
         for x, y in ((a, b), (b, a)):
             if isinstance(y, Const) and isinstance(y.value, bool) and op in ("Eq", "Is") and isinstance(x, (Sym, PredV)):
@@ -1853,10 +1862,21 @@ class Interp:
         if on_yield is None and "contextmanager" in fi.decorators:
             # a generator-based context manager: nothing runs before the `with` statement enters it
             return CtxGenV(fi, tuple(args), tuple(sorted(kwargs.items(), key=lambda kv: kv[0])))
+        if on_yield is None and fi.qualname not in self.summaries and self._is_generator(fi):
+            # a generator function: calling it runs nothing; the for statement that consumes it drives it
+            return GenV(fi, tuple(args), tuple(sorted(kwargs.items(), key=lambda kv: kv[0])))
         if not force_inline:
             h = self.summaries.get(fi.qualname)
             if h is not None:
                 self.stats["resolved_calls"] += 1
+                if kwargs:
+                    # a summary reads the call by role: arguments given by keyword are also put in their parameter's position
+                    # (the keywords stay, so a summary that looks an argument up by name finds it as well)
+                    args = list(args)
+                    for name_ in [a.arg for a in fi.node.args.posonlyargs + fi.node.args.args][len(args):]:
+                        if name_ not in kwargs:
+                            break
+                        args.append(kwargs[name_])
                 return h(self, fi, args, kwargs, node)
             # self recursion (direct or mutual through the current stack): recorded, not unfolded
             for fr in self.state.frames:
@@ -2111,8 +2131,56 @@ class Interp:
             return False
         return True
 
+    def _is_generator(self, fi):
+        cache = self.__dict__.setdefault("_gen_cache", {})
+        if fi.qualname not in cache:
+            found = False
+            todo = list(fi.node.body)
+            while todo and not found:
+                n = todo.pop()
+                if isinstance(n, (ast.Yield, ast.YieldFrom)):
+                    found = True
+                elif not isinstance(n, (ast.FunctionDef, ast.AsyncFunctionDef, ast.Lambda, ast.ClassDef)):
+                    todo.extend(ast.iter_child_nodes(n))
+            cache[fi.qualname] = found
+        return cache[fi.qualname]
+
+    def _for_over_generator(self, node, gen):
+        """for x in g(...): BODY with g a generator function of the repository: the body runs at every yield (clauses the
+        body adds are seen by the generator's next step); break / return / an exception in the body close the generator
+        (its finally blocks run, its except clauses do not see them)."""
+        caller = self.frame
+        pending = []
+
+        def on_yield(value):
+            self.state.frames.append(caller)
+            try:
+                self.assign(node.target, value)
+                try:
+                    self.exec_block(node.body)
+                except ContinueSig:
+                    pass
+                except (BreakSig, ReturnSig, RaiseSig) as sig:
+                    pending.append(sig)
+                    raise _GenStop()
+            finally:
+                self.state.frames.pop()
+            return Const(None)
+
+        try:
+            self.call_function(gen.fi, list(gen.args), dict(gen.kwargs), node.iter, force_inline=True, on_yield=on_yield)
+        except _GenStop:
+            sig = pending[0]
+            if isinstance(sig, BreakSig):
+                return
+            raise sig
+        if node.orelse:
+            self.exec_block(node.orelse)
+
     def exec_For(self, node):
         it = self.eval(node.iter)
+        if isinstance(it, GenV):
+            return self._for_over_generator(node, it)
 
         def body():
             self.exec_block(node.body)
